@@ -10,7 +10,9 @@ pub mod c09;
 pub mod c11;
 pub mod c12;
 pub mod c13;
+pub mod c14;
 pub mod c15;
+pub mod c16;
 pub mod c17;
 pub mod c19;
 pub mod c20;
@@ -42,7 +44,9 @@ pub fn plan(prop: &str, tier: Tier) -> Option<Plan> {
     "C11" => Some(c11::plan(tier)),
     "C12" => Some(c12::plan(tier)),
     "C13" => Some(c13::plan(tier)),
+    "C14" => Some(c14::plan(tier)),
     "C15" => Some(c15::plan(tier)),
+    "C16" => Some(c16::plan(tier)),
     "C17" => Some(c17::plan(tier)),
     "C19" => Some(c19::plan(tier)),
     "C20" => Some(c20::plan(tier)),
